@@ -27,7 +27,7 @@ DigitsOf(v, w) == (Len(v.mag) + w - 1) \div w
 
 (* the call returned normally with value v in output field o *)
 Ret(e, o, v) == /\ e.err = 0 /\ e.code = 0 /\ e.unch
-                /\ Normal(o, e.w)
+                /\ Normal(o, e.w) /\ o.u <= e.cap            \* never more digits than physically exist
                 /\ IEq(Val(o), v)
 (* an error outcome: admissible only if the result needs more than lim digits; *)
 (* inputs stay unchanged (unless aliased) and the sticky code reads as error   *)
